@@ -56,6 +56,13 @@ def plan(tier, seed):
         'worker_state': 'idle', 'nproc': 2, 'queued': 0, 'busy': 0, 'threads': False, 'T': 1.0}})
     specs.append({'lane': 'real', 'sc': 'terminate', 'timeout': 90, 'params': {
         'worker_state': 'c_sleep', 'nproc': 2, 'queued': 0, 'busy': 2, 'threads': False, 'T': 1.0}})
+    # workers leaving after a termination signal, each descheduled for a moment while it
+    # reports its exit (still inside the result queue's write lock)
+    for st, nproc in (('c_sleep', 3), ('idle', 4)) if tier == 'quick' else \
+            (('c_sleep', 3), ('idle', 4), ('python', 2), ('idle', 2)):
+        specs.append({'lane': 'real', 'sc': 'terminate', 'timeout': 90, 'params': {
+            'worker_state': st, 'nproc': nproc, 'queued': 0, 'busy': 0 if st == 'idle' else nproc,
+            'threads': True, 'T': 1.0, 'slow_send': 0.05}})
     specs.append({'lane': 'real', 'sc': 'gc', 'timeout': 80, 'params': {'nproc': 2}})
     for off in ((0.1, 0.6) if tier == 'quick' else (0.0, 0.1, 0.4, 0.8, 1.1)):
         specs.append({'lane': 'real', 'sc': 'race', 'timeout': 90, 'params': {
